@@ -233,3 +233,9 @@ _TARGET_HANDLERS = {
     ZoneType.P.value: _get_process_targets,
     ZoneType.O.value: _get_unit_operation_targets,
 }
+
+
+# --- verification hook (add-only; inert unless OPENPINCH_VERIF=1) ---
+from . import _verif as _verif_hooks
+if _verif_hooks.ON:
+    pinch_analysis_service = _verif_hooks.wrap_call("service", pinch_analysis_service)
